@@ -43,17 +43,22 @@ CONSTANTS DevTarballSkipped,      \* D11: agent input stager drops TARBALL befor
           DevSlashDropped,        \* complete_url loses the trailing slash of a directory target
           DevLinkNoDirTarget,     \* os.link(src, "dir/") is an error: LINK cannot take a directory target
           DevClientIsCwd,         \* client side paths resolved against the process cwd, not the session's client sandbox
+          DevMkdirCached,         \* the long-lived helper remembers the directories it made and skips mkdir
+          DevAbsSandboxLocal,     \* an absolute td.sandbox loses schema and host of the pilot's file system
           Scope,                  \* "single" | "pairs" | "hostile" | "dev" | "all" | "given" (trace monitor)
           Emit                    \* print every case (the rig's enumerator)
 
-VARIABLES inp, E, fs, nx, log, tar, st, passedIn, stage, snap
+VARIABLES inp, E, fs, nx, log, tar, st, passedIn, stage, snap,
+          gen,      \* task generation: 1, then (cases with g2) 2 - same stager objects, new tasks
+          made      \* ghost: directories the first generation's directives created
 
-svars == <<inp, E, fs, nx, log, tar, st, passedIn, stage, snap>>
+svars == <<inp, E, fs, nx, log, tar, st, passedIn, stage, snap, gen, made>>
 
 Tasks    == {"A", "B"}
 NonTask  == {"client", "endpoint", "resource", "session", "pilot"}
 Schemas  == NonTask \cup {"task"}
-TaskLoc(t) == "task" \o t
+TaskLocG(t, g) == IF g = 2 THEN "task" \o t \o "2" ELSE "task" \o t
+TaskLoc(t)     == TaskLocG(t, gen)
 
 \* os.path.basename over the path alphabet
 Base(p) == CASE p = "s/a" -> "a" [] p = "s/o" -> "o" [] p = "t/b" -> "b" [] OTHER -> p
@@ -98,10 +103,10 @@ SideOf(dir, act) ==
   IF dir = "in" THEN (IF act \in {"TRANSFER", "TARBALL"} THEN "cin" ELSE "ain")
                 ELSE (IF act = "TRANSFER" THEN "cout" ELSE "aout")
 
-DefaultLoc(side, role, t) ==
-  CASE side = "cin"  -> (IF role = "s" THEN "client" ELSE TaskLoc(t))
-    [] side = "cout" -> (IF role = "s" THEN TaskLoc(t) ELSE "client")
-    [] OTHER         -> TaskLoc(t)
+DefaultLoc(side, role, tl) ==
+  CASE side = "cin"  -> (IF role = "s" THEN "client" ELSE tl)
+    [] side = "cout" -> (IF role = "s" THEN tl ELSE "client")
+    [] OTHER         -> tl
 
 \* x: [k, p], sp: the source path (an empty or existing-directory target
 \* receives the basename of the source)
@@ -118,13 +123,15 @@ DirTP     == {"d/", "e/"}        \* d: does not exist yet, e: exists in every no
 IsDirP(p) == p \in DirTP
 InDir(p, sp) == IF IsDirP(p) THEN p \o Base(sp) ELSE p
 
-KeyOf(side, role, x, sp, t) ==
-  CASE x.k = "rel"    -> <<DefaultLoc(side, role, t), InDir(x.p, sp)>>
-    [] x.k = "empty"  -> <<DefaultLoc(side, role, t), Base(sp)>>
+\* tl: the location of the task's sandbox
+KeyOfL(side, role, x, sp, tl) ==
+  CASE x.k = "rel"    -> <<DefaultLoc(side, role, tl), InDir(x.p, sp)>>
+    [] x.k = "empty"  -> <<DefaultLoc(side, role, tl), Base(sp)>>
     [] x.k = "abs"    -> <<"endpoint", InDir(x.p, sp)>>
     [] x.k = "absdir" -> <<"endpoint", "dd/" \o Base(sp)>>
-    [] x.k = "task"   -> <<TaskLoc(t), InDir(x.p, sp)>>
+    [] x.k = "task"   -> <<tl, InDir(x.p, sp)>>
     [] OTHER          -> <<x.k, InDir(x.p, sp)>>
+KeyOf(side, role, x, sp, t) == KeyOfL(side, role, x, sp, TaskLoc(t))
 
 SrcKey(side, n, t) == KeyOf(side, "s", n.s, n.s.p, t)
 TgtKey(side, n, t) == KeyOf(side, "t", n.t, n.s.p, t)
@@ -140,6 +147,8 @@ Ino(n)       == "n" \o ToString(n)
 Entry(id, kind, sk, tk, c) ==
   [t |-> id[1], dir |-> id[2], j |-> id[3], kind |-> kind, sk |-> sk, tk |-> tk, c |-> c]
 
+Carried(L, n) == L[n].kind # "missed"
+
 \* (e) a directive that cannot be carried out fails the task (ok = FALSE);
 \*     `tolerated` is the deviation: the failure goes unnoticed
 \*     why: "nosource" | "exists" (legitimate reasons) | "unquoted" (deviation)
@@ -147,6 +156,19 @@ Missed(M, id, sk, tk, why, tolerated) ==
   [M EXCEPT !.log = Append(@, Entry(id, "missed", sk, tk, why)), !.ok = tolerated]
 
 Hostile(k) == k[2] = "h h"
+
+\* the directory a path of the alphabet lies in ("" = the location itself)
+DirOf(p) == CASE p \in {"t/b"}               -> "t"
+              [] p \in {"d/a", "d/o", "d/ba"} -> "d"
+              [] p \in {"e/a", "e/o"}         -> "e"
+              [] OTHER                        -> ""
+DirKey(k)          == <<k[1], DirOf(k[2])>>
+ParentIsFile(F, k) == DirOf(k[2]) # "" /\ Has(F, DirKey(k))
+DirGone(F, k)      == ~\E x \in DOMAIN F : x[1] = k[1] /\ DirOf(x[2]) = DirOf(k[2])
+\* deviation: the helper object lives as long as the stager; a directory it
+\* made for an earlier task and which is gone by now is not made again
+MkdirSkipped(F, k) == /\ DevMkdirCached /\ gen = 2 /\ DirOf(k[2]) # ""
+                      /\ DirKey(k) \in made /\ DirGone(F, k)
 
 \* cp -r src tgt  (TRANSFER on the client side, COPY on the agent side)
 DoCopy(M, id, sk, tk) ==
@@ -181,7 +203,13 @@ DoMove(M, id, sk, tk) ==
 \* the absolute existing one which the stager's "is a folder" fix-up handles
 NoLink(n) == DevLinkNoDirTarget /\ IsDirP(n.t.p) /\ ~(n.t.k = "abs" /\ n.t.p = "e/")
 
+\* every directive is judged on the file system as it is when it runs: the
+\* target's directory is made on demand (again, if it is gone); a regular file
+\* in its place cannot be helped - the directive fails its task
 Do(M, id, act, sk, tk, nolink) ==
+  IF Has(M.fs, sk) /\ ParentIsFile(M.fs, tk) THEN Missed(M, id, sk, tk, "notdir", FALSE)
+  ELSE IF Has(M.fs, sk) /\ MkdirSkipped(M.fs, tk) THEN Missed(M, id, sk, tk, "cachedmkdir", FALSE)
+  ELSE
   CASE act \in {"TRANSFER", "COPY"} -> DoCopy(M, id, sk, tk)
     [] act = "LINK"                 -> DoLink(M, id, sk, tk, nolink)
     [] act = "MOVE"                 -> DoMove(M, id, sk, tk)
@@ -305,7 +333,19 @@ Outcomes2 == {[oc |-> "DONE", soe |-> FALSE], [oc |-> "FAILED", soe |-> FALSE],
 \* "same": the default (no client_sandbox configured), one directory.
 \* client:// and the relative client side paths ALWAYS denote the session's
 \* client sandbox (location "client").
-Case(di, do, x) == [din |-> di, dout |-> do, oc |-> x.oc, soe |-> x.soe, cs |-> "differs"]
+\* sb: td.sandbox - "default" (<pilot sandbox>/<uid>/), "rel" (<pilot sandbox>/<name>/),
+\*     "abs" (the given absolute path ON THE PILOT'S FILE SYSTEM: Session._get_task_sandbox
+\*     keeps schema and host of the pilot sandbox URL)
+\* ep: file system endpoint of the pilot's resource - "local" (file://localhost/) or
+\*     "remote" (sftp://<host>/): task:// and the relative task side paths of client side
+\*     directives denote the task sandbox on THAT host, never a same-named local path
+\*     (location "stray").  Remote cases hold client side TRANSFER directives only.
+\* g2: "none", or what happens to the directory a directive's target lies in before a
+\*     second generation of the same tasks passes the same stager objects:
+\*     "rmdir" (the application removes it), "mvdir" (a MOVE directive of an intermediate
+\*     task carries it away), "file" (a regular file takes its name)
+Case(di, do, x) == [din |-> di, dout |-> do, oc |-> x.oc, soe |-> x.soe, cs |-> "differs",
+                    sb |-> "default", ep |-> "local", g2 |-> "none"]
 Ok1 == [oc |-> "DONE", soe |-> FALSE]
 
 \* directory targets (trailing slash), both directions, client side TRANSFER
@@ -337,6 +377,31 @@ SameOut == {e \in OutSingles \cup OutDirSingles :
 SameCases ==
        {[Case(<<d>>, <<>>, Ok1) EXCEPT !.cs = "same"] : d \in SameIn}
   \cup {[Case(<<>>, <<d>>, Ok1) EXCEPT !.cs = "same"] : d \in SameOut}
+
+\* resolution contexts: sandbox kind x endpoint
+CtxIn  == Rec({"bare"}, {"TRANSFER"}, {"rel"}, {"a"}, {"omit"}, NoTp)
+     \cup Rec({"dict"}, {"TRANSFER"}, {"client"}, {"s/a"}, {"task", "pilot"}, {"t/b"})
+     \cup Rec({"gt"}, {"TRANSFER"}, {"rel"}, {"a"}, {"rel"}, {"b", "d/"})
+CtxOut == Rec({"bare"}, {"TRANSFER"}, {"rel"}, {"o"}, {"omit"}, NoTp)
+     \cup Rec({"dict"}, {"TRANSFER"}, {"task"}, {"s/o"}, {"client"}, {"t/b"})
+     \cup Rec({"lt"}, {"TRANSFER"}, {"rel"}, {"o"}, {"rel"}, {"b"})
+CtxAgent == Rec({"dict"}, CLM, {"pilot"}, {"a"}, {"task", "rel"}, {"b"})
+Ctxs == {x \in [sb : {"default", "rel", "abs"}, ep : {"local", "remote"}] :
+            ~(x.sb = "default" /\ x.ep = "local")}
+CtxCases ==
+       {[Case(<<d>>, <<>>, Ok1) EXCEPT !.sb = x.sb, !.ep = x.ep] : d \in CtxIn,  x \in Ctxs}
+  \cup {[Case(<<>>, <<d>>, Ok1) EXCEPT !.sb = x.sb, !.ep = x.ep] : d \in CtxOut, x \in Ctxs}
+  \cup {[Case(<<d>>, <<>>, Ok1) EXCEPT !.sb = b] : d \in CtxAgent, b \in {"rel", "abs"}}
+
+\* two generations of tasks through the same stager objects
+GenIn  == Rec({"dict"}, {"TRANSFER"}, {"rel"}, {"a"}, {"pilot"}, {"t/b", "d/"})
+     \cup Rec({"dict"}, CLM, {"session"}, {"a"}, {"pilot", "resource"}, {"t/b"})
+     \cup Rec({"dict"}, {"COPY", "LINK"}, {"session"}, {"a"}, {"pilot"}, {"d/"})
+GenOut == Rec({"dict"}, {"TRANSFER"}, {"rel"}, {"o"}, {"client"}, {"t/b", "d/"})
+     \cup Rec({"dict"}, {"COPY", "MOVE"}, {"rel"}, {"o"}, {"pilot"}, {"t/b"})
+GenCases ==
+       {[Case(<<d>>, <<>>, Ok1) EXCEPT !.g2 = g] : d \in GenIn,  g \in {"rmdir", "mvdir", "file"}}
+  \cup {[Case(<<>>, <<d>>, Ok1) EXCEPT !.g2 = g] : d \in GenOut, g \in {"rmdir", "mvdir", "file"}}
 
 PairCases ==
        {Case(<<d1, d2>>, <<>>, Ok1) : d1 \in CoreIn, d2 \in CoreIn}
@@ -374,10 +439,10 @@ ExecFiles(t) == IF t = "A" THEN {"o", "s/o"} ELSE {"bo"}
 CaseKeys(c, what) ==
   LET nin  == NormList(c.din)
       nout == NormList(c.dout) IN
-     {<<"in",  j, KeyOf(SideOf("in",  nin[j].act),  what, IF what = "s" THEN nin[j].s  ELSE nin[j].t,
-                        nin[j].s.p,  "A")>> : j \in 1 .. Len(nin)}
-  \cup {<<"out", j, KeyOf(SideOf("out", nout[j].act), what, IF what = "s" THEN nout[j].s ELSE nout[j].t,
-                        nout[j].s.p, "A")>> : j \in 1 .. Len(nout)}
+     {<<"in",  j, KeyOfL(SideOf("in",  nin[j].act),  what, IF what = "s" THEN nin[j].s  ELSE nin[j].t,
+                        nin[j].s.p,  "taskA")>> : j \in 1 .. Len(nin)}
+  \cup {<<"out", j, KeyOfL(SideOf("out", nout[j].act), what, IF what = "s" THEN nout[j].s ELSE nout[j].t,
+                        nout[j].s.p, "taskA")>> : j \in 1 .. Len(nout)}
 
 WellFormed(c) ==
   LET tks == CaseKeys(c, "t")
@@ -394,13 +459,15 @@ DevCases ==
   \cup {Case(<<>>, <<d>>, x) : d \in CoreOut, x \in Outcomes}
   \cup HostileCases
   \cup {c \in SameCases : c.din # <<>> => c.din[1].form \in {"bare", "gt"}}
+  \cup CtxCases \cup GenCases
 
 Cases ==
   CASE Scope = "single" -> {c \in SingleCases : WellFormed(c)}
     [] Scope = "pairs"  -> {c \in PairCases   : WellFormed(c)}
     [] Scope = "dev"    -> {c \in DevCases : WellFormed(c)}
     [] Scope = "hostile" -> {c \in HostileCases : WellFormed(c)}
-    [] Scope = "all"    -> {c \in SingleCases \cup SameCases \cup PairCases \cup HostileCases : WellFormed(c)}
+    [] Scope = "all"    -> {c \in SingleCases \cup SameCases \cup PairCases \cup HostileCases
+                                    \cup CtxCases \cup GenCases : WellFormed(c)}
     [] OTHER            -> {}
 
 (* ------------------------------------------------------------------------ *)
@@ -410,14 +477,19 @@ BIn  == << [form |-> "bare", act |-> "TRANSFER", sk |-> "rel",   sp |-> "ba", tk
            [form |-> "dict", act |-> "COPY",     sk |-> "pilot", sp |-> "ba", tk |-> "task", tp |-> "bc"] >>
 BOut == << [form |-> "bare", act |-> "TRANSFER", sk |-> "rel",   sp |-> "bo", tk |-> "omit", tp |-> ""] >>
 
-RawOf(t) == IF t = "A" THEN [din |-> inp.din, dout |-> inp.dout] ELSE [din |-> BIn, dout |-> BOut]
+\* (no agent side action with a remote endpoint: the rig cannot act on that host)
+RawOf(t) == IF t = "A" THEN [din |-> inp.din, dout |-> inp.dout]
+            ELSE [din |-> IF inp.ep = "remote" THEN <<BIn[1]>> ELSE BIn, dout |-> BOut]
 
 \* what the agent input stager makes of the directive: a relative target is
 \* tested for "exists and is a folder" in the component's working directory
 \* instead of the task sandbox, and then gets the source's basename appended
 CwdK(x, isdefault) == IF x.k = "client" \/ (x.k = "rel" /\ isdefault) THEN [x EXCEPT !.k = "cwd"] ELSE x
+StrayK(x, isdefault) == IF x.k = "task" \/ (x.k = "rel" /\ isdefault) THEN [x EXCEPT !.k = "stray"] ELSE x
 NormCode(d, dir) ==
-  IF DevClientIsCwd /\ inp.cs = "differs" /\ d.act \in {"TRANSFER", "TARBALL"}
+  IF DevAbsSandboxLocal /\ inp.sb = "abs" /\ inp.ep = "remote" /\ d.act \in {"TRANSFER", "TARBALL"}
+  THEN [Norm(d) EXCEPT !.s = StrayK(@, dir = "out"), !.t = StrayK(@, dir = "in")]
+  ELSE IF DevClientIsCwd /\ inp.cs = "differs" /\ d.act \in {"TRANSFER", "TARBALL"}
   THEN [Norm(d) EXCEPT !.s = CwdK(@, dir = "in"), !.t = CwdK(@, dir = "out")]
   ELSE IF DevDirTestInCwd /\ d.tk = "relcwddir" /\ d.act \in CLM
   THEN [Norm(d) EXCEPT !.t = [k |-> "rel", p |-> d.tp \o "/" \o Base(d.sp)]]
@@ -435,6 +507,7 @@ InitRest ==
   /\ st = [t \in Tasks |-> "ok"]
   /\ passedIn = [t \in Tasks |-> FALSE]
   /\ stage = "new" /\ snap = InitFsOf(inp)
+  /\ gen = 1 /\ made = {}
 
 DesignInit == /\ inp \in Cases
               /\ (Emit => PrintT(<<"CASE", inp>>))
@@ -456,18 +529,18 @@ Expand ==
   /\ stage = "new" /\ stage' = "expanded"
   /\ E' = [t \in Tasks |-> [din  |-> [j \in 1 .. Len(RawOf(t).din) |-> NormCode(RawOf(t).din[j], "in")],
                            dout |-> [j \in 1 .. Len(RawOf(t).dout) |-> NormCode(RawOf(t).dout[j], "out")]]]
-  /\ UNCHANGED <<inp, fs, nx, log, tar, st, passedIn, snap>>
+  /\ UNCHANGED <<inp, fs, nx, log, tar, st, passedIn, snap, gen, made>>
 
 TIn ==
   /\ stage = "expanded" /\ stage' = "tin"
   /\ LET F(M, t) == ClientIn(M, E[t].din, t) IN ForBoth(F)
-  /\ UNCHANGED <<inp, E, passedIn, snap>>
+  /\ UNCHANGED <<inp, E, passedIn, snap, gen, made>>
 
 AIn ==
   /\ stage = "tin" /\ stage' = "ain"
   /\ LET F(M, t) == AgentIn(M, E[t].din, t) IN ForBoth(F)
   /\ passedIn' = [t \in Tasks |-> st'[t] = "ok"]
-  /\ UNCHANGED <<inp, E, snap>>
+  /\ UNCHANGED <<inp, E, snap, gen, made>>
 
 \* every task that reached the scheduler runs and writes its files
 Exec ==
@@ -477,13 +550,13 @@ Exec ==
                  IF k \in wr THEN [c |-> k[1] \o ":" \o k[2], i |-> "exec:" \o k[1] \o ":" \o k[2]]
                  ELSE fs[k]]
      /\ snap' = fs'
-  /\ UNCHANGED <<inp, E, nx, log, tar, st, passedIn>>
+  /\ UNCHANGED <<inp, E, nx, log, tar, st, passedIn, gen, made>>
 
 AOut ==
   /\ stage = "exec" /\ stage' = "aout"
   /\ LET F(M, t) == IF Oc(t) = "DONE" \/ Soe(t)
                     THEN RunActs(M, E[t].dout, 1, t, "out", "aout") ELSE M IN ForBoth(F)
-  /\ UNCHANGED <<inp, E, passedIn, snap>>
+  /\ UNCHANGED <<inp, E, passedIn, snap, gen, made>>
 
 TOut ==
   /\ stage = "aout" /\ stage' = "tout"
@@ -496,16 +569,35 @@ TOut ==
                                 ELSE CASE Oc(t) = "DONE"   -> "done"
                                        [] Oc(t) = "FAILED" -> "failed"
                                        [] OTHER            -> "canceled"]
-  /\ UNCHANGED <<inp, E, passedIn, snap>>
+  /\ UNCHANGED <<inp, E, passedIn, snap, gen, made>>
 
-Next == Expand \/ TIn \/ AIn \/ Exec \/ AOut \/ TOut
+\* between the generations: the directory D the (first) directive's target lies in
+\* disappears; the stager objects (and whatever they remember) stay
+EnvDir == LET n  == IF inp.din # <<>> THEN Norm(inp.din[1]) ELSE Norm(inp.dout[1])
+              dr == IF inp.din # <<>> THEN "in" ELSE "out" IN
+          DirKey(TgtKey(SideOf(dr, n.act), n, "A"))
+Env ==
+  /\ stage = "tout" /\ gen = 1 /\ inp.g2 # "none"
+  /\ LET D    == EnvDir
+         keep == {k \in DOMAIN fs : ~(k[1] = D[1] /\ DirOf(k[2]) = D[2])}
+         F1   == [k \in keep |-> fs[k]] IN
+     /\ fs' = IF inp.g2 = "file" THEN Put(F1, D, [c |-> "envfile", i |-> "envfile"]) ELSE F1
+     /\ snap' = fs'
+  /\ made' = {DirKey(log[n].tk) : n \in {m \in 1 .. Len(log) : Carried(log, m) /\ DirOf(log[m].tk[2]) # ""}}
+  /\ gen' = 2 /\ stage' = "new" /\ log' = <<>>
+  /\ E' = [t \in Tasks |-> [din |-> <<>>, dout |-> <<>>]]
+  /\ tar' = [t \in Tasks |-> <<>>]
+  /\ st' = [t \in Tasks |-> "ok"]
+  /\ passedIn' = [t \in Tasks |-> FALSE]
+  /\ UNCHANGED <<inp, nx>>
+
+Next == Expand \/ TIn \/ AIn \/ Exec \/ AOut \/ TOut \/ Env
 Design == DesignInit /\ [][Next]_svars
 
 (* ------------------------------------------------------------------------ *)
 (* properties, over the ghost log and the file map                          *)
 (* ------------------------------------------------------------------------ *)
 AfterIn  == stage \in {"ain", "exec", "aout", "tout"}
-Carried(L, n) == L[n].kind # "missed"
 
 \* the file placed by entry n was later replaced or moved away
 ConsumedIn(L, n) ==
@@ -526,7 +618,7 @@ DocSrc(t, dir, j) ==
 TypeOK ==
   /\ stage \in {"new", "expanded", "tin", "ain", "exec", "aout", "tout"}
   /\ \A t \in Tasks : st[t] \in {"ok", "failed", "done", "canceled"}
-  /\ \A k \in DOMAIN fs : k[1] \in NonTask \cup {"taskA", "taskB", "cwd"}
+  /\ \A k \in DOMAIN fs : k[1] \in NonTask \cup {"taskA", "taskB", "taskA2", "taskB2", "cwd", "stray"}
 
 \* Placed: the named place holds the content the source had
 InvPlaced ==
@@ -553,7 +645,7 @@ InvMissingFails ==
      /\ (log[n].dir = "out" /\ stage = "tout") => st[log[n].t] = "failed"
 
 \* ... and a task fails in staging only for a directive that cannot be carried out
-Legit(n) == log[n].kind = "missed" /\ log[n].c \in {"nosource", "exists"}
+Legit(n) == log[n].kind = "missed" /\ log[n].c \in {"nosource", "exists", "notdir"}
 InvFailureJustified ==
   /\ AfterIn => \A t \in Tasks : ~passedIn[t] =>
         \E n \in 1 .. Len(log) : log[n].t = t /\ log[n].dir = "in" /\ Legit(n)
@@ -592,8 +684,9 @@ InvStageOnError ==
 \* FailureLocal: whatever A asks for, B is staged and ends DONE
 InvFailureLocal ==
   /\ AfterIn => /\ passedIn["B"]
-                /\ Has(fs, <<"taskB", "ba">>) /\ fs[<<"taskB", "ba">>].c = "client:ba"
-                /\ Has(fs, <<"taskB", "bc">>) /\ fs[<<"taskB", "bc">>].c = "pilot:ba"
+                /\ Has(fs, <<TaskLoc("B"), "ba">>) /\ fs[<<TaskLoc("B"), "ba">>].c = "client:ba"
+                /\ inp.ep = "local" =>
+                      Has(fs, <<TaskLoc("B"), "bc">>) /\ fs[<<TaskLoc("B"), "bc">>].c = "pilot:ba"
   /\ stage = "tout" => /\ st["B"] = "done"
-                       /\ Has(fs, <<"client", "bo">>) /\ fs[<<"client", "bo">>].c = "taskB:bo"
+                       /\ Has(fs, <<"client", "bo">>) /\ fs[<<"client", "bo">>].c = TaskLoc("B") \o ":bo"
 =============================================================================
